@@ -150,6 +150,7 @@ Fixpoint py_eq (a b : value) {struct a} : bool :=
           Nat.eqb (List.length l1) (List.length l2) &&
           (fix all (l1 : list value) : bool :=
              match l1 with [] => true | x :: r1 => existsb (py_eq x) l2 && all r1 end) l1
+      | VOther t1, VOther t2 => String.eqb t1 t2 && negb (String.eqb t1 "object")   (* the harness' non-JSON objects: equal tuples / bytes / sets are ==, plain objects are not *)
       | _, _ => false
       end
   end.
